@@ -103,10 +103,17 @@ def render_stmts(stmts, files, ind=0) -> list[str]:
             out.append(f"{pad}@={rexpr(s['e'])}")
         elif k == "map":
             d = s["decl"]
-            line = (f".map identifier={d['id']} bank_range=0x{d['b0']:02x}, 0x{d['b1']:02x} "
-                    f"addr_range=0x{d['lo']:04x}, 0x{d['hi']:04x} mask=0x{d['mask']:x}")
-            if d["m0"] != -1:
-                line += f" mirror_bank_range=0x{d['m0']:02x}, 0x{d['m1']:02x}"
+            if s.get("dec"):
+                # the same declaration with its numbers written in decimal
+                line = (f".map identifier={d['id']} bank_range={d['b0']}, {d['b1']} "
+                        f"addr_range={d['lo']}, {d['hi']} mask={d['mask']}")
+                if d["m0"] != -1:
+                    line += f" mirror_bank_range={d['m0']}, {d['m1']}"
+            else:
+                line = (f".map identifier={d['id']} bank_range=0x{d['b0']:02x}, 0x{d['b1']:02x} "
+                        f"addr_range=0x{d['lo']:04x}, 0x{d['hi']:04x} mask=0x{d['mask']:x}")
+                if d["m0"] != -1:
+                    line += f" mirror_bank_range=0x{d['m0']:02x}, 0x{d['m1']:02x}"
             if d["ram"]:
                 line += " writable=1"
             out.append(pad + line)
@@ -351,7 +358,8 @@ class Gen:
             # (placed so that its bytes cross the end of the first bank's window: the bus in force decides where they go on)
             early = [{"k": "stareq", "e": num((d0["b0"] << 16) + d0["hi"] - 1)}, {"k": "data", "d": "db", "es": [num(0xE1), num(0xE2), num(0xE3)]},
                      {"k": "label", "n": self.fresh("l")}, {"k": "data", "d": "db", "es": [num(0xE4)]}] if r.random() < 0.3 else []
-            body = early + [{"k": "map", "decl": d} for d in self.CUSTOM[self.rom]] + body
+            decfmt = r.random() < 0.35
+            body = early + [{"k": "map", "decl": d, "dec": decfmt} for d in self.CUSTOM[self.rom]] + body
             body.append({"k": "stareq", "e": num((d0["b0"] << 16) + d0["lo"] + r.choice([0, 0, 0x100]))})
         else:
             start = 0xC00000 if self.rom == "high" else 0x008000
